@@ -187,6 +187,32 @@ pub fn run(ctx: &Ctx) -> CheckOutput {
             JobOut { stats: st, viols: sink.take(), samples: vec![json!({"explorer":"TREE","scalar":"f64","view":spec.name(),"alphabet":Z5,"depth":depth})] }
         }));
     }
+    // combinators nested directly in combinators (an operand must be the child's *reported* value),
+    // at f32 and f64, on values whose inner result is inexact
+    {
+        use Kind::*;
+        let e = Spec::echo;
+        let inexact = [0.1, 0.3, 1.0, 3.0, 9.0, -7.0];
+        for k1 in crate::spec::BINARY {
+            for k2 in crate::spec::BINARY {
+                for (c1, c2) in [(0.1, 1.0), (3.0, 1.0), (0.7, 0.3)] {
+                    let inner = Spec::bin(k2, e(), Spec::constant(c1));
+                    for spec in [Spec::bin(k1, inner.clone(), Spec::constant(c2)), Spec::bin(k1, Spec::constant(c2), inner.clone())] {
+                        if k1 == Divide && spec.ch[1].kind != Constant {
+                            continue; // the inner result can be zero
+                        }
+                        jobs.push(Box::new(move || {
+                            let mut st = Stats::default();
+                            let sink = Sink::new();
+                            check::<f32>(&spec, &inexact, 2, &mut st, &sink);
+                            check::<f64>(&spec, &inexact, 2, &mut st, &sink);
+                            JobOut { stats: st, viols: sink.take(), samples: vec![] }
+                        }));
+                    }
+                }
+            }
+        }
+    }
     // the stateless functions over a ladder of magnitudes (depth 2: they have no memory to fill)
     {
         use Kind::*;
